@@ -3,6 +3,7 @@
 //	schedh steps <profile> <seed> <outfile> [only-seq]   single-goroutine step correspondence (see steps.go)
 //	schedh conc <seed> <rounds> <variant>                concurrent API histories against a firing scheduler (JSON lines)
 //	schedh free <mode> <seed> <millis> <flags>           free-running schedulers with recording triggers and jobs (JSON)
+//	schedh gate pool|window <op> [workers]               an API call placed inside a window of the loop (JSON, see gate.go)
 package main
 
 import (
@@ -22,6 +23,8 @@ func main() {
 		cmdConc(os.Args[2:])
 	case "free":
 		cmdFree(os.Args[2:])
+	case "gate":
+		cmdGate(os.Args[2:])
 	default:
 		fmt.Fprintln(os.Stderr, "unknown command", os.Args[1])
 		os.Exit(2)
